@@ -1,10 +1,12 @@
 (* Extract_c04.v — extraction of the MPI models (group "c04").  ExtrOcamlBasic only. *)
 From Coq Require Extraction ExtrOcamlBasic.
 From Coq Require Import ZArith.
-From Parmcb Require Import MpiModel MpiSignedModel.
+From Parmcb Require Import MpiModel MpiSignedModel MpiTreesModel.
 Extraction Language OCaml.
 Set Extraction Optimize.
 Extraction "model.ml"
   Z.add Z.mul Z.opp Z.div_eucl Z.of_nat Z.to_nat Z.compare Z.eqb
   mcb_sva_signed_mpi_orig_Z mcb_sva_signed_mpi_fixed_Z boost_reduce_tree rtree_okb
-  stride slice_lo slice_len to_sva.
+  stride slice_lo slice_len to_sva
+  mt_all_pairs_Z mt_local_Z mt_sort_Z mt_rank_lookup_seq_Z mt_rank_accept_tbb_Z mt_trace_run_Z mcb_sva_trees_mpi_seq_Z
+  slice indices_to_edges edges_to_indices.
